@@ -228,6 +228,51 @@ def run(unit_name, repo, outdir, extra_args=(), probe=False, timeout=900):
     return res
 
 
+def run_probes(unit_name, repo, outdir, timeout=900):
+    """Vacuity guard: every free function under contract gets a twin whose postcondition is `false`.
+    The twin must be refuted; a twin that verifies means a contradictory precondition or shim contract."""
+    m, d = load_unit(unit_name)
+    spec = Spec.load([os.path.join(d, s) for s in m.UNIT["specs"]])
+    ex = build_unit(repo, m.UNIT, spec, prelude_texts(m, d), probe=True)
+    outdir = os.path.abspath(outdir)
+    gen_path = os.path.join(outdir, unit_name + "__probe.rs")
+    open(gen_path, "w").write(ex.text)
+    cmd = ["verus", gen_path, "--output-json", "--time", "--error-format=json", "--multiple-errors", "2"] + list(m.UNIT.get("verus_args", []))
+    res = {"unit": unit_name, "probed": list(ex.probes), "refuted": [], "vacuous": [], "smt_s": 0}
+    try:
+        p = subprocess.run(cmd, capture_output=True, text=True, timeout=timeout, cwd=outdir)
+    except subprocess.TimeoutExpired:
+        res["vacuous"] = ["(probe run timed out)"]
+        return res
+    refuted = set()
+    for line in p.stderr.split("\n"):
+        line = line.strip()
+        if not line.startswith("{"):
+            continue
+        try:
+            dj = json.loads(line)
+        except Exception:
+            continue
+        if dj.get("level") != "error":
+            continue
+        for sp_ in dj.get("spans", []):
+            fn, label = map_line(ex, sp_["line_start"])
+            if fn and fn.endswith("__probe") and "postcondition not satisfied" in dj["message"]:
+                refuted.add(fn[:-len("__probe")])
+    try:
+        js = json.loads(p.stdout)
+        res["smt_s"] = (js.get("times-ms", {}).get("smt", {}).get("total") or 0) / 1000.0
+        if "verification-results" not in js or js["verification-results"].get("encountered-vir-error"):
+            res["vacuous"] = ["(probe file did not reach verification)"]
+            return res
+    except Exception:
+        res["vacuous"] = ["(probe run produced no result)"]
+        return res
+    res["refuted"] = sorted(refuted)
+    res["vacuous"] = sorted(set(ex.probes) - refuted)
+    return res
+
+
 if __name__ == "__main__":
     import argparse
     ap = argparse.ArgumentParser()
